@@ -51,6 +51,7 @@ RULE = ("part rt: Hypothesis st.recursive over bool, int (signed 64-bit range, e
         "encode raise; every such case is non-trivial, distinct by (kind, atom, context).  The size-limit boundary "
         "cases (exactly 1 MiB / 16384 must round trip, one more must be refused) are enumerated.")
 RULE += (" " + 'The class grammar includes classes deriving from another user class (own type id, own declared fields), so that a base class is encoded before / after its derived class within one process.')
+RULE += (" " + 'In two thirds of the out-of-domain cases the refused value is followed, in the same process, by one or two in-domain objects that must still round trip through every entry point (a refusal stops an encoding half way; nothing of it may survive).')
 ASSUMPTIONS = [
     "supported domain as the property states it: signed 64-bit ints; dict keys and set members are scalars or enum "
     "members that stay hashable after the documented tuple->list rule, one type per container, float keys "
@@ -1081,7 +1082,7 @@ def run_rt(spec, ctx):
     test()
 
 
-def ood_body(ctx, kind, atom, path):
+def ood_body(ctx, kind, atom, path, after=None):
     expect = EXPECT_KIND[kind]
     hashable = HASHABLE_KIND[kind]
     spec = wrap(atom, path, hashable)
@@ -1090,6 +1091,11 @@ def ood_body(ctx, kind, atom, path):
     ctx.label("ood-%s:%s" % (kind, outcome))
     if outcome in ("refused", "ok"):
         ctx.nt(("ood", kind, repr(atom)[:80], tuple(path)))
+    if after is not None:
+        # a refusal must not leave anything behind: the next in-domain values of the same process (through every entry
+        # point: serialize_value, dumpb, dumpz, store_persistant) still round trip (a refused encoding stops half way)
+        out2 = check_values(ctx, [build(a) for a in after])
+        ctx.label("ood-then-in-domain:%s->%s" % (outcome, out2))
 
 
 def run_ood(spec, ctx):
@@ -1101,15 +1107,16 @@ def run_ood(spec, ctx):
         alts.append(s)
         if kind not in heavy:
             alts.extend([s, s])
-    case_st = st.tuples(st.one_of(*alts), st.lists(st.sampled_from(WRAPS), max_size=4))
+    after_st = st.one_of(st.none(), st.lists(hidden(st.recursive(s_leaves(False, False), s_objects, max_leaves=6)), min_size=1, max_size=2))
+    case_st = st.tuples(st.one_of(*alts), st.lists(st.sampled_from(WRAPS), max_size=4), after_st)
 
     @ctx.given(spec["n"], case_st, salt="ood/%s" % spec.get("i", 0))
     def test(c):
         if ctx.out_of_time():
             return
-        (kind, atom), path = c
-        ctx.case({"part": "ood", "kind": kind, "atom": atom, "path": path})
-        ood_body(ctx, kind, atom, path)
+        (kind, atom), path, after = c
+        ctx.case({"part": "ood", "kind": kind, "atom": atom, "path": path, "after": after})
+        ood_body(ctx, kind, atom, path, after)
         ctx.sample({"part": "ood", "kind": kind, "atom": atom if kind not in ("bigint",) else str(atom)[:40], "path": path})
 
     test()
@@ -1159,7 +1166,7 @@ def replay_case(case, ctx):
     if part == "rt":
         rt_body(ctx, case["values"], "replay")
     elif part == "ood":
-        ood_body(ctx, case["kind"], case["atom"], case["path"])
+        ood_body(ctx, case["kind"], case["atom"], case["path"], case.get("after"))
     elif part == "one":
         check_one(ctx, case["value"], case["expect"], case.get("base"))
     else:
